@@ -140,6 +140,20 @@ Twins == <<
 LD == <<"*", "**", "_", "~~", "~~~", "a", " ", "[", "](/u)", "`">>
 LDAll == 1..10
 WrapD == << <<"[", "](/u)">>, <<"![", "](/s)">>, <<"*", "*">> >>
+(* HtmlBlocks.tla: tag names of start conditions 1 and 6 (CommonMark 0.30) and the line shapes of its documents *)
+HtmlNames1 == <<"script", "pre", "style", "textarea">>
+HtmlNames6 == <<"address", "article", "aside", "base", "basefont", "blockquote", "body", "caption", "center", "col", "colgroup",
+    "dd", "details", "dialog", "dir", "div", "dl", "dt", "fieldset", "figcaption", "figure", "footer", "form", "frame", "frameset",
+    "h1", "h2", "h3", "h4", "h5", "h6", "head", "header", "hr", "html", "iframe", "legend", "li", "link", "main", "menu", "menuitem",
+    "nav", "noframes", "ol", "optgroup", "option", "p", "param", "section", "source", "summary", "table", "tbody", "td", "tfoot",
+    "th", "thead", "title", "tr", "track", "ul">>
+HtmlLines == <<
+    "<pre>", "<PRE x>", "<pre", "<prex>", "</pre>", "a</PRE>b", "<script>x</script>", "<style", "<textarea>",
+    "<!--", "-->", "x-->y", "<!-- c -->", "<?", "?>", "<?x?>", "<!A", "<!a", ">", "<!DOCTYPE h>", "<![CDATA[", "]]>", "<![cdata[",
+    "<div>", "<DIV", "</div>", "<div/>", "<div/", "<p", "<p>t", "</P >", "<hr/>", "<h1>", "<h7>", "<td", "<divx>", "<li>",
+    "<x>", "</x>", "<x a=b>", "<x a='b' c>", "<x", "<x >t", "<span>t", "<a href=\"u\">", "</a >", "<x/>", "<1>", "<-x>",
+    "", " ", "text", "t <div>", "  <div>", "   <!--", "    <div>", "\t<pre>", "- a", "> q", "# h", "***"
+>>
 (* characters explored one position deeper *)
 L0Core == 1..17
 =============================================================================
